@@ -12,7 +12,7 @@ LEVEL = "exploration"
 RULE = ("every SyntaxError/IndentationError raised by parse_string (exec and eval) on rejected inputs (mutants/prefixes of Python and xonsh "
         "statements, error snippets of the repository's own error tests re-laid-out, unterminated constructs, soup) is checked by the "
         "well-formedness predicate; distinct non-trivial = distinct (text, mode) that raised a SyntaxError and has >= 2 characters")
-ASSUMPTIONS = ["source lines are split at \\n as the tokenizer's readline does; the line terminator of `text` is not compared"]
+ASSUMPTIONS = ["source lines are split with universal newlines (\\n, \\r\\n, \\r) as the parser entry points and CPython read a source; the line terminator of `text` is not compared"]
 
 
 def worker_init():
@@ -21,7 +21,7 @@ def worker_init():
 
 def predicate(src, e):
     """list of defects of the exception's attributes w.r.t. the input"""
-    lines = io.StringIO(src).readlines()
+    lines = io.StringIO(src, newline=None).readlines()
     n = len(lines)
     bad = []
     if not isinstance(e.msg, str) or not e.msg.strip():
@@ -65,7 +65,7 @@ def classify(src, e, bad):
     if _in_literal_eval(e):
         return "F11e"
     if kinds == {"text-is-not-the-source-line"} and e.text == "" and isinstance(e.lineno, int) and isinstance(e.offset, int):
-        lines = io.StringIO(src).readlines()
+        lines = io.StringIO(src, newline=None).readlines()
         if e.lineno <= len(lines):
             line = lines[e.lineno - 1]
             if line.strip() == "" or e.offset >= len(line.rstrip("\r\n")) + 1:
